@@ -26,7 +26,8 @@ type task struct {
 	exit     chan struct{} // closed by main after the race log of the run has been read
 	stats    *Stats
 	viol     []Violation
-	note     string // attached to the next yield message (trace mode only)
+	pending  []pendingOp // cold runs: outcomes waiting for their reference
+	note     string      // attached to the next yield message (trace mode only)
 	hash     uint64
 	goid     atomic.Uint64
 }
@@ -240,7 +241,10 @@ func RunG(s *scn.Scenario, opt Options) *Result {
 	for i, ops := range s.Tasks {
 		t := &task{id: int32(i), ops: ops, wake: make(chan struct{}), realDone: make(chan struct{}), exit: make(chan struct{}), stats: NewStats()}
 		for _, st := range ops {
-			w := x.wantFor(st)
+			w := Outcome{Steps: 2000}
+			if !(s.Cfg.ColdProcess && s.Prop == "C05") {
+				w = x.wantFor(st)
+			}
 			t.want = append(t.want, w)
 			estimate += int64(w.Steps) + 4
 		}
@@ -258,6 +262,7 @@ func RunG(s *scn.Scenario, opt Options) *Result {
 		g.preemptAt[int64(g.rng.Intn(int(estimate)))] = true
 	}
 	mark := opt.RaceLog.Mark()
+	x.raceLog, x.raceMark = opt.RaceLog, mark
 
 	for _, t := range x.sim.tasks {
 		go x.taskMain(t)
@@ -279,6 +284,21 @@ func RunG(s *scn.Scenario, opt Options) *Result {
 		}
 		if x.cache != nil {
 			x.cache.check(-1)
+		}
+		if s.Cfg.ColdProcess && s.Prop == "C05" {
+			// cold run: references only now, after the tasks have met a cold package
+			for _, t := range x.sim.tasks {
+				for _, p := range t.pending {
+					want := x.wantFor(p.st)
+					x.res.Stats.Ops++
+					if v := x.judgeC05(t.id, p.i, p.st, p.got, want, p.exempt); v != nil {
+						x.res.Viol = append(x.res.Viol, *v)
+					} else if !want.Aborted() {
+						x.res.Stats.OpsCompared++
+					}
+				}
+			}
+			x.res.Stats.Probes["cold_process_runs"]++
 		}
 		x.recheckSolos()
 		x.verifyPristine(opt)
@@ -320,6 +340,9 @@ func (x *exec) schedule() {
 	g := s.g
 	checkState := x.s.Prop == "C16" && !raceEnabled
 	for g.live > 0 {
+		if raceEnabled && g.point%32 == 31 && !s.cutoff.Load() && x.raceLog.Grown(x.raceMark) {
+			s.cutoff.Store(true)
+		}
 		run := x.runnable()
 		if len(run) == 0 && x.awaitExternallyBlocked() {
 			continue // a task that was blocked outside the simulator came back
@@ -694,6 +717,29 @@ func mustSelect(text string, nav xpath.NodeNavigator) (o Outcome) {
 	return selectAll(ex, nav, 0)
 }
 
+type pendingOp struct {
+	i      int
+	st     scn.Step
+	got    Outcome
+	exempt bool
+}
+
+// judgeC05 compares one operation's outcome with its reference.
+func (x *exec) judgeC05(task int32, i int, st scn.Step, got, want Outcome, exempt bool) *Violation {
+	if want.Aborted() || exempt || got.Key() == want.Key() {
+		return nil
+	}
+	text, _, _ := x.opText(st)
+	kind := "divergence"
+	if got.Aborted() {
+		kind = "no-progress"
+	} else if (got.Kind == "prt" || strings.HasPrefix(got.Tail, "prt:")) && want.Kind != "prt" && !strings.HasPrefix(want.Tail, "prt:") {
+		kind = "stray-panic"
+	}
+	return &Violation{Prop: x.s.Prop, Kind: kind, Class: kind + ":" + st.Op,
+		Detail: fmt.Sprintf("task %d op %d %s(%s) doc %d ctx %d: got %s, run alone gives %s", task, i, st.Op, text, st.D%len(x.docs), st.C, clip(got.Key()), clip(want.Key())), Step: i}
+}
+
 // taskOp runs one operation of a task program on the task's goroutine.
 func (x *exec) taskOp(t *task, i int, st scn.Step) {
 	s := x.sim
@@ -703,7 +749,7 @@ func (x *exec) taskOp(t *task, i int, st scn.Step) {
 		s.onEvent(evOpBegin, scn.HashString(st.K)&0x7fffffffffffffff, nil)
 		var r string
 		if st.Op == "get" {
-			r = x.cache.opGet(i, e, st.K, st.Fail)
+			r = x.cache.opGet(i, e, st.K, st.Fail, st.Panic)
 		} else {
 			r = x.cache.opRegex(i, st, t.id)
 		}
@@ -729,11 +775,12 @@ func (x *exec) taskOp(t *task, i int, st scn.Step) {
 	s.onEvent(evOpBegin, uint64(ei), nil)
 	nav := world.NewNav(x.docs[d], st.C, t.id)
 	var got Outcome
+	noShared := false
 	switch st.Op {
 	case "select", "eval":
 		ex := x.shared[ei]
 		if ex == nil {
-			got = want
+			got, noShared = want, true // the text did not compile: nothing to share, nothing to judge
 			break
 		}
 		if api == "select" {
@@ -774,18 +821,13 @@ func (x *exec) taskOp(t *task, i int, st scn.Step) {
 	if e.Crashed {
 		t.stats.Faults["nav-panic"]++
 	}
-	if !want.Aborted() && !(e.Crashed && got.Aborted()) {
+	if x.s.Cfg.ColdProcess {
+		// cold run: the reference is computed after the concurrent phase (judgeCold)
+		t.pending = append(t.pending, pendingOp{i: i, st: st, got: got, exempt: noShared || (e.Crashed || e.CutOff) && got.Aborted()})
+	} else if v := x.judgeC05(t.id, i, st, got, want, (e.Crashed || e.CutOff) && got.Aborted()); v != nil {
+		t.viol = append(t.viol, *v)
+	} else if !want.Aborted() {
 		t.stats.OpsCompared++
-		if got.Key() != want.Key() {
-			kind := "divergence"
-			if got.Aborted() {
-				kind = "no-progress"
-			} else if (got.Kind == "prt" || strings.HasPrefix(got.Tail, "prt:")) && want.Kind != "prt" && !strings.HasPrefix(want.Tail, "prt:") {
-				kind = "stray-panic"
-			}
-			t.viol = append(t.viol, Violation{Prop: x.s.Prop, Kind: kind, Class: kind + ":" + st.Op,
-				Detail: fmt.Sprintf("task %d op %d %s(%s) doc %d ctx %d: got %s, run alone gives %s", t.id, i, st.Op, text, d, st.C, clip(got.Key()), clip(want.Key())), Step: i})
-		}
 	}
 	if s.trace {
 		t.note = fmt.Sprintf("op %d %s e%d -> %s", i, st.Op, ei, clip(got.Key()))
